@@ -94,7 +94,7 @@ func discoverGuarded(p *an.Prog) []guarded {
 				mu := ""
 				for i := 0; i < st.NumFields(); i++ {
 					if isMutexType(st.Field(i).Type()) {
-						mu = st.Field(i).Name()
+						mu = an.RoleOf(st.Field(i))
 					}
 				}
 				if mu == "" {
@@ -106,7 +106,7 @@ func discoverGuarded(p *an.Prog) []guarded {
 				}
 				for i := 0; i < st.NumFields(); i++ {
 					if _, isMap := st.Field(i).Type().Underlying().(*types.Map); isMap {
-						out = append(out, guarded{prefix + n + "." + st.Field(i).Name(), prefix + n + "." + mu})
+						out = append(out, guarded{prefix + n + "." + an.RoleOf(st.Field(i)), prefix + n + "." + mu})
 					}
 				}
 			case *types.Var:
